@@ -477,7 +477,11 @@ class Ref8(c07.Ref):
             self.finish(0)
             return
         self.edit(l[:off] + ch * cnt + l[off + cnt:] + '\n', self.r, self.r + 1)
-        self.o = off + cnt - 1
+        if ch == '\n':                  # r<newline>: the characters become line breaks, the cursor goes to the last new line
+            self.r += cnt
+            self.o = 0
+        else:
+            self.o = off + cnt - 1
         self.finish(1)
 
     def run8(self, prog):
@@ -767,7 +771,7 @@ def gen_cmd(rng, text):
         key = rng.choice(['x', 'x', 'X', 'D', 'Y', '~', 'p', 'p', 'P', 'P', 'J'])
         return ['x', gen_reg(rng) if key != 'J' and key != '~' else '', gen_cnt(rng), key]
     if t < 15:
-        return ['r', gen_cnt(rng), rng.choice(['z', 'é', '中', ' '])]
+        return ['r', gen_cnt(rng), rng.choice(['z', 'é', '中', ' ', 'z', 'é', '\n'])]
     if t < 17:
         return ['ci', gen_reg(rng), gen_cnt(rng), rng.choice(['C', 's', 'S']), gen_typed(rng)]
     return ['i', rng.choice(list('iaIAoO')), gen_typed(rng)]
@@ -862,8 +866,43 @@ def gen_pair_ops(rng, text):
     return prog
 
 
+def gen_indent_text(rng):
+    """lines whose leading blanks are around the 127 bytes the autoindent buffer of insert mode can hold"""
+    ls = []
+    for _ in range(rng.range(1, 3)):
+        k = rng.choice([125, 126, 127, 128, 129, 140])
+        ind = ' ' * k if rng.chance(2, 3) else ('\t' * (k // 2) + ' ' * (k - k // 2))
+        ls.append(ind + rng.choice(['x', 'ab c', '', 'é']))
+        if rng.chance(1, 3):
+            ls.append(c07.gen_line(rng))
+    return '\n'.join(ls) + '\n'
+
+
+def gen_indent_prog(rng, text):
+    ls = c07.lines_of(text)
+    prog = []
+    for _ in range(rng.range(1, 3)):
+        prog.append(['g', rng.below(len(ls)) + 1])
+        t = rng.below(5)
+        typed = rng.choice(['a', 'a\nb', '\x14a', '\x14\x14b\nc', '\x04a', ' \nz', 'é\n\ny', ''])
+        if t < 2:
+            prog.append(['i', rng.choice('oOoA'), typed])
+        elif t < 4:
+            prog.append(['ci', '', 0, rng.choice('SC'), typed])
+        else:
+            prog.append(['op', '', rng.choice([0, 2]), 'c', 0, 'DBL', None, typed])
+        if rng.chance(1, 2):
+            prog.append(gen_relative(rng))
+    return prog
+
+
 def gen_case_text(rng):
-    return c07.gen_pair_text(rng) if rng.chance(3, 20) else c07.gen_text(rng, 6)
+    t = rng.below(40)
+    if t < 6:
+        return c07.gen_pair_text(rng)
+    if t < 8:
+        return gen_indent_text(rng)
+    return c07.gen_text(rng, 6)
 
 
 def gen_prog(rng, text):
@@ -871,6 +910,8 @@ def gen_prog(rng, text):
     prog = []
     if any(ch in text for ch in '()[]{}') and rng.chance(1, 3):
         return gen_pair_ops(rng, text)
+    if len(text) > 120 and any(len(l) - len(l.lstrip(' \t')) > 120 for l in ls) and rng.chance(3, 4):
+        return gen_indent_prog(rng, text)
     gen_start(rng, ls, prog)
     shape = rng.below(20)
     if shape < 3:
